@@ -72,7 +72,7 @@ func (f *Mapcon) Call(s *slip.Scope, args slip.List, depth int) slip.Object {
 			l2 := args[i].(slip.List)
 			ca[i-1] = l2[n:]
 		}
-		rl, _ := caller.Call(s, ca, d2).(slip.List)
+		rl, _ := slip.PrimaryValue(caller.Call(s, ca, d2)).(slip.List)
 		rlist = append(rlist, rl...)
 	}
 	return rlist
